@@ -294,12 +294,16 @@ class SQueue:
     def __init__(self, sched, maxsize=0):
         self.sched = sched
         self.items = []
+        self.maxsize = maxsize or 0  # a bounded queue blocks its producers when it is full
         self.interruptible = False  # KeyboardInterrupt may be injected at get() of task 0
 
     def put(self, item, block=True, timeout=None):
         s = self.sched
         if not s.aborting:
-            s.point("queue.put")
+            if self.maxsize > 0:
+                s.point("queue.put", lambda: len(self.items) < self.maxsize)
+            else:
+                s.point("queue.put")
         self.items.append(item)
 
     def get(self, block=True, timeout=None):
